@@ -11,7 +11,7 @@ EXPLANATION = ("Call-graph + all-paths MIR rules on the three ingredient travers
                "get_hash_binding_manifest_impl): each recursive call is dominated by its bound (depth counter compared with the finite constant MAX_INGREDIENT_DEPTH and "
                "incremented at the call; path/visited membership tests), over-deep graphs return Err, cyclic graphs log assertion.ingredient.malformed-class failures and "
                "return Err(CyclicIngredients) which callers propagate, dangling references log ingredient.manifest.missing as Failure. Decides termination structure and "
-               "rejection plumbing, not polynomial time.")
+               "rejection plumbing; for polynomial time only the memo structure (an already expanded manifest is not expanded again) is decided, not the bound itself.")
 RULE = "obligation = (traversal function, recursive call | rejection exit, guard/log)"
 
 TRAV = ['store::Store::ingredient_checks', 'store::Store::ingredient_checks_async', 'store::Store::ingredient_checks_async::{closure#0}',
@@ -67,6 +67,13 @@ def run(ctx):
         oblig.failing_edge_obligation(ctx, 'C19-D2', fn, g, isf, 'a Failure log for the cyclic reference', accept_ret=())
         miss = [s for s in sites if ('str', 'ingredient.manifest.missing') in s['codes'] and s['kind'] == 'failure']
         ctx.ob('C19-D2', gr, 'dangling ingredient reference', 'ingredient.manifest.missing logged as Failure', bool(miss))
+        # D3 polynomial structure: a manifest already expanded is not expanded again (memo on the shared map), otherwise shared sub-graphs are walked once per path
+        rec = [bi for bi, t in fn.calls() if t['fd'].endswith('Store::get_claim_referenced_manifests_impl')]
+        gm = CallGuard(r'HashMap.*::contains_key$', 'false', name='manifest_map.contains_key(label) = false (not expanded yet)')
+        for bi in rec:
+            oblig.effect_requires(ctx, 'C19-D3', fn, 'recursive expansion of a referenced manifest', lambda b2, blk, _bi=bi: b2 == _bi, [gm])
+        memo_fill = [bi for bi, t in fn.calls() if re.search(r'HashMap.*::insert$', t['fd']) and 'manifest_map' in T.call_term(fn, bi)]
+        ctx.ob('C19-D3', gr, 'memo table', 'filled (manifest_map.insert) in the traversal', bool(memo_fill), detail=str(len(memo_fill)))
         # callers propagate its error
         for name in prog.fns():
             f2 = prog.fn(name)
